@@ -224,7 +224,7 @@ def show_event(ev):
 
 
 def show_trace(evs):
-    return " ; ".join(show_event(e) for e in evs)[:400]
+    return " ; ".join(show_event(e) for e in evs)[:400].encode("ascii", "backslashreplace").decode()
 
 
 def run(rep):
@@ -320,11 +320,11 @@ def run(rep):
             raise Machinery("the judge cannot interpret trace %d: %s" % (tid, show_trace(r["ev"])))
         w = v["why"]
         ev = r["ev"][w["at"] - 1]
-        detail = {"clause": w["clause"], "at": w["at"], "event": show_event(ev), "outcome": ev.get("o"), "error": ev.get("err"),
+        detail = {"clause": w["clause"], "at": w["at"], "event": show_event(ev).encode("ascii", "backslashreplace").decode(), "outcome": ev.get("o"), "error": ev.get("err"),
                   "expected": show_pw(w["exp"]) if w["clause"] in ("get", "evalname", "evalexpr", "jsview") else None,
                   "actual": show_pw(ev["out"]) if "out" in ev else {"calls": ev.get("calls"), "got": ev.get("got")},
                   "trace": r["ev"]}
-        rep.mismatch("%s @%d %s" % (show_trace(r["ev"]), w["at"], w["clause"]), detail, dev=v.get("dev", ""))
+        rep.mismatch("t%d: %s @%d %s" % (tid, show_trace(r["ev"]), w["at"], w["clause"]), detail, dev=v.get("dev", ""))
     rep.exhaustive = True
     rep.notes["events_judged"] = rep.evaluations
     rep.assumptions += ["text is compared as UTF-16 code units (a non-BMP character and its surrogate pair are the same text)",
